@@ -84,10 +84,11 @@ def call (w : Inputs) : String → List Value → St → Option Res
   -- no static types: the value is kept as `defaultValue`; it is only moved around (no rule inspects it).
   -- Which `impl Default` it is follows from the declared type of its destination (Rust's type checker).
   | "Default::default", [], st => some (.val defaultValue st)
-  -- std: `Box::new(v)`; `Box::leak(b)` gives the pointer to the (never freed) heap object;
+  -- std: `Box::new(v)`; `Box::leak(b)` / `Box::into_raw(b)` give the pointer to the (not freed) heap object;
   -- `Box::from_raw(p)` takes it back
   | "Box::new", [v], st => some (.val (boxValue v) st)
   | "Box::leak", [.ext "Box" [v]], st => some (.val (heapPtr v) st)
+  | "Box::into_raw", [.ext "Box" [v]], st => some (.val (heapPtr v) st)
   | "Box::from_raw", [.ext "heap" [v]], st => some (.val (boxValue v) st)
   -- std: `mem::drop(b)` of a `Box`: the content is dropped (logged)
   | "mem::drop", [.ext "Box" [v]], st => some (.val .unit (st.emit (evDrop v)))
@@ -128,7 +129,17 @@ def deref (_ : Inputs) : Value → St → Option Res
   | .ext "heap" [v], st => some (.val v st)
   | _, _ => none
 
+/-- `e?` on an `Err(e)` whose `e` is a `ShmError`: `?` applies `From::from`; the core looks for the
+    `impl From<ShmError> for E` of the translated files, `E` the error type of the enclosing function (core rule
+    `[errors]` of `eval`, `.try_`), and falls back to the identity when `E` is `ShmError` itself -/
+def errFrom (_ : String) : Value → Option Value
+  | .enumv "ShmError::SyscallError" _ => some (.ext "From::from" [.str "ShmError"])
+  | .enumv "ShmError::SegmentNotInitialized" _ => some (.ext "From::from" [.str "ShmError"])
+  | .enumv "ShmError::SegmentMalformed" _ => some (.ext "From::from" [.str "ShmError"])
+  | .enumv "ShmError::CausalityBreach" _ => some (.ext "From::from" [.str "ShmError"])
+  | _ => none
+
 /-- the dictionary -/
-def ext : Ext := { Ext.none with call := call, method := method, deref := deref }
+def ext : Ext := { Ext.none with call := call, method := method, deref := deref, errFrom := errFrom }
 
 end ClockBound.Rs.DictErrors
